@@ -20,6 +20,24 @@ def dd():
     return import_dd()
 
 
+_WARM = [False]
+
+
+def warm():
+    """import dask.dataframe and run one tiny graph BEFORE the per-case watchdog starts (the first import
+    takes many seconds on a loaded machine and must not be charged to the first case)"""
+    if _WARM[0]:
+        return
+    _WARM[0] = True
+    try:
+        import pandas as pd
+        d = dd().from_pandas(pd.DataFrame({"a": [1.0, 2.0], "b": [1, 2]}), npartitions=2)
+        d.assign(c=d.a + d.b)[["c"]].sum().compute(scheduler="sync")
+        d.a.cumsum().compute(scheduler="sync")
+    except Exception:
+        pass
+
+
 # ---------------------------------------------------------------------------------------------
 # cells <-> pandas
 # ---------------------------------------------------------------------------------------------
@@ -145,6 +163,26 @@ def gen_lens(rng, n, maxparts=5, allow_empty=True):
     if not allow_empty:
         lens = [x for x in lens if x > 0] or [n]
     return lens
+
+
+def snap_lens(index, lens):
+    """move every partition boundary forward to the end of a run of equal (sorted) index labels: equal labels are never
+    split over two partitions — the invariant dask itself maintains (from_pandas, set_index), and what index ALIGNMENT
+    between co-partitioned operands relies on"""
+    n = len(index)
+    b = bounds_of(lens)
+    out = [0]
+    for cut in b[1:-1]:
+        while 0 < cut < n and index[cut - 1] == index[cut]:
+            cut += 1
+        out.append(max(cut, out[-1]))
+    out.append(n)
+    return [y - x for x, y in zip(out, out[1:])]
+
+
+def splits_equal_labels(index, lens):
+    """True when a partition boundary separates two equal index labels (a partitioning dask never builds itself)"""
+    return list(lens) != snap_lens(list(index), list(lens))
 
 
 def gen_cells(rng, n, p_nan=None, lo=-3, hi=6):
